@@ -96,7 +96,7 @@ package writecache
 //@   loop 4 invariant [last_address_flushes_the_batch] rangeindex + 1 == len(sortedAddrs) ==> len(b) == 0
 //@   loop 5 invariant 0 <= i && i < len(sortedAddrs) && samearray(b, sortedAddrs) && sliceoff(b, sortedAddrs) + len(b) == i + ite(handledAddr, 1, 0) && pending(0) == len(b) + ite(handledAddr, 0, 1)
 //@   loop 5 invariant handledAddr && !flushB ==> i + 1 < len(sortedAddrs)
-//@   loop 6 invariant pending(0) + rangeindex + 1 == len(b) + ite(handledAddr, 0, 1)
+//@   loop 6 invariant -1 <= rangeindex && rangeindex < len(b) && pending(0) + rangeindex + 1 == len(b) + ite(handledAddr, 0, 1)
 
 // ---- C14 (write-cache layer): the cache's own store is written and the main storage is
 // fed only on a path where the cache's mode was found writable. put is a helper without its own check: it demands it from every caller; the calls
